@@ -13,6 +13,7 @@ import (
 	"fmt"
 	"go/ast"
 	"go/constant"
+	"go/importer"
 	"go/parser"
 	"go/printer"
 	"go/token"
@@ -468,7 +469,7 @@ func constValue(dir, name string) string {
 		for _, f := range p.Files {
 			files = append(files, f)
 		}
-		conf := types.Config{Error: func(error) {}, Importer: nil, FakeImportC: true}
+		conf := types.Config{Error: func(error) {}, Importer: importer.ForCompiler(fset, "source", nil), FakeImportC: true}
 		info := &types.Info{Defs: map[*ast.Ident]types.Object{}}
 		conf.Check(p.Name, fset, files, info)
 		for id, obj := range info.Defs {
